@@ -162,21 +162,28 @@ __CPROVER_ensures((__CPROVER_return_value.buffer != self->receive_buffer_ && __C
        || ((read_16bit(__CPROVER_return_value.buffer) & pdu_type_mask) == pdu_type_start
            && __CPROVER_return_value.size >= overall_overhead
            && (size_t)read_16bit(__CPROVER_return_value.buffer + ll_overhead) + overall_overhead == __CPROVER_return_value.size))))
+/* an unfragmented L2CAP PDU is a new SDU: nothing of an incomplete one stays behind (a later continuation fragment must not complete it) */
+__CPROVER_ensures((__CPROVER_return_value.buffer != self->receive_buffer_ && __CPROVER_return_value.size != 0 && (read_16bit(__CPROVER_return_value.buffer) & pdu_type_mask) == pdu_type_start)
+    ==> (self->receive_buffer_used_ == 0 && self->receive_size_ == 0))
 /* an SDU that is complete stays available until it is freed; nothing is taken from the radio meanwhile */
 __CPROVER_ensures((W_used != 0 && W_rsize == 0) ==> (__CPROVER_return_value.buffer == self->receive_buffer_ && G_ring_count == W_ring))
 __CPROVER_assigns(__CPROVER_object_upto(self->receive_buffer_, CAP), self->receive_size_, self->receive_buffer_used_, G_ring_count,
                   self->transmit_size_, self->transmit_buffer_used_, __CPROVER_object_whole(G_ring_mem))
 {{next}}
+/* frees what the last next_ll_l2cap_received() handed out (its postcondition tells which): the reassembly buffer iff it holds a complete SDU - then nothing is taken from the radio; otherwise
+   the PDU at the head of the radio's queue (an LL control PDU may arrive between the fragments of an SDU) - then a reassembly that is under way goes on untouched */
+#define SDU_COMPLETE (W_used != 0 && W_rsize == 0)
 void free_ll_l2cap_received(struct sdu* self)
-__CPROVER_requires(CFG_OK && SDU_OK(self) && RX_INV(self) && LEN_INV(self) && G_ring_count == W_ring && (W_used != 0 || G_ring_count >= 1))
-__CPROVER_ensures(self->receive_buffer_used_ == 0 && self->receive_size_ == 0 && G_ring_count == (W_used != 0 ? W_ring : W_ring - 1))
+__CPROVER_requires(CFG_OK && SDU_OK(self) && RX_INV(self) && LEN_INV(self) && G_ring_count == W_ring && (SDU_COMPLETE || G_ring_count >= 1))
+__CPROVER_ensures(SDU_COMPLETE ? (self->receive_buffer_used_ == 0 && self->receive_size_ == 0 && G_ring_count == W_ring)
+                               : (self->receive_buffer_used_ == W_used && self->receive_size_ == W_rsize && G_ring_count == W_ring - 1))
 __CPROVER_assigns(self->receive_size_, self->receive_buffer_used_, G_ring_count)
 {{free}}
 """ + SETUP + r"""
 void h_next_ll_l2cap_received(void) { SETUP; W_ring = nondet_size(); G_ring_count = W_ring; next_ll_l2cap_received(s); BT_CANARY(); }
 void h_free_ll_l2cap_received(void) { SETUP; W_ring = nondet_size(); G_ring_count = W_ring; free_ll_l2cap_received(s); BT_CANARY(); }
 """
-UNITS.append(dict(name='reassembly', defines=['BT_NEED_COPY', 'BT_BYTES_MAX=300'], extracts=RX_EX, code=RX_CODE,
+UNITS.append(dict(name='reassembly', defines=['BT_NEED_COPY', 'BT_BYTES_MAX=300'], extracts=RX_EX, code=RX_CODE, replay=dict(src='replay/c19_seq_replay.cpp'),
                   enforce=['next_ll_l2cap_received', 'free_ll_l2cap_received'],
                   replace=['add_to_receive_buffer', 'next_received', 'free_received', 'pdu_receive_data_callback', 'try_send_pdus'],
                   timeout=900, object_bits=10))
